@@ -1,0 +1,8 @@
+//go:build !verif
+
+// SPDX-License-Identifier: Apache-2.0
+// Copyright Authors of Cilium
+
+package internal
+
+func verifLock(event string, seq uint64) {}
